@@ -327,6 +327,213 @@ def worker(cfg):
             return "returned"
         core.explore(body, stats=stats, max_paths=60000)
 
+
+    elif kind == "self":
+        # a target set that contains the query itself (target 0).  What the integerisation guarantees for a column compared
+        # with itself (kinds "dist" / "bin_tail" / "median": distance 0 -> largest similarity of its row, not below the median
+        # score) is assumed of the score matrix; the real _p_values must then report the offset-0 full-overlap alignment.
+        nq, Tl, NB, off = cfg["nq"], [cfg["nq"]] + list(cfg.get("others", [])), cfg["n_scores"], cfg["offset"]
+        ntot = sum(Tl)
+        strict = cfg.get("strict", False)
+
+        def body(ctx):
+            g = np.empty((ntot, nq), dtype=object)
+            for c in np.ndindex(ntot, nq):
+                v = core.Int("g_%d_%d" % c)
+                ctx.assume(s_and(v >= -off, v <= cfg["gmax"]))
+                g[c] = v
+            for i in range(nq):                       # query column i is stored in column l = nq-1-i
+                l = nq - 1 - i
+                ctx.assume(g[i, l] > 0 if strict else g[i, l] >= 0)
+                for t in range(nq):
+                    if t != i:
+                        ctx.assume(g[i, l] > g[t, l] if strict else g[i, l] >= g[t, l])
+            Bc = np.empty((max(Tl) + 1, NB), dtype=object)
+            for c in np.ndindex(*Bc.shape):
+                Bc[c] = core.Real("B_%d_%d" % c)
+            results = numpy_s.empty((len(Tl), 5), dtype="float64")
+            rr_inv = T.NDArray(np.arange(ntot).astype(object), dtype="uint64")
+            try:
+                tt._p_values(T.NDArray(g, dtype="int8"), T.NDArray(Bc, dtype="float64"), rr_inv, T.NDArray(np.array(Tl, dtype=object), dtype="int64"), -1, nq, off, results)
+            except IndexError as e:
+                add("self:out-of-range", "_p_values indexes out of range on a self-comparison: %s" % e, dict(cfg))
+                return "raised"
+            diag = nq * off + s_sum([g[i, nq - 1 - i] for i in range(nq)])
+            cl = [results.a[0, 1] == diag]
+            if strict:
+                cl += [results.a[0, 2] == 0, results.a[0, 3] == nq]
+            m = ctx.prove(s_and(*cl), "self-match: best score is the offset-0 full-overlap score")
+            if m is not None:
+                add("self:not-at-offset-0", "a motif compared with itself does not report the score of the offset-0 full-overlap alignment%s" % (" / reports another offset although that alignment is strictly best" if strict else ""), dict(cfg))
+            return "returned"
+        core.explore(body, stats=stats, max_paths=60000)
+
+    elif kind == "dist":
+        # column similarity is minus the Euclidean distance: the distance statement range of _integer_distances_and_histogram
+        # with the wrapper's own norm statements; sqrt is an uninterpreted strictly increasing function
+        import ast as _ast
+        outer = lambda nd, text: isinstance(nd, _ast.For) and text.startswith("for i in range(nq)") and "z_min_, z_max_" in text
+        dist, info = ld.slice_function("tools.tomtom", "_integer_distances_and_histogram", lambda st, text: text.startswith("z_min_, z_max_ ="),
+                                       lambda st, text: isinstance(st, _ast.For) and text.startswith("for j in range(Y.shape[-1])"),
+                                       ["X", "Y", "gamma", "X_norm", "Y_norm", "nq_csum", "i"], ["gamma", "z_min_", "z_max_"], within=outer)
+        qn, info2 = ld.slice_function("tools.tomtom", "tomtom", lambda st, text: text.startswith("Q_norm ="), lambda st, text: text.startswith("Q_norm ="), ["Q"], ["Q_norm"])
+        tn, info3 = ld.slice_function("tools.tomtom", "tomtom", lambda st, text: text.startswith("T_norm ="), lambda st, text: text.startswith("T_norm ="), ["T"], ["T_norm"])
+        out.setdefault("functions", []).extend([info, info2, info3])
+        A, NT, NQ, qi = cfg["A"], cfg["NT"], cfg["NQ"], cfg["i"]
+
+        def body(ctx):
+            x = [[core.Real("x%d_%d" % (k, i)) for i in range(NQ)] for k in range(A)]
+            y = [[core.Real("y%d_%d" % (k, j)) for j in range(NT)] for k in range(A)]
+            for v in [w for row in x + y for w in row]:
+                ctx.assume(s_and(v >= 0, v <= 1))
+            if cfg.get("self_col"):
+                for k in range(A):
+                    ctx.assume(y[k][0] == x[k][qi])
+            X = T.NDArray(np.array(x, dtype=object), dtype="float64")
+            Y = T.NDArray(np.array(y, dtype=object), dtype="float64")
+            (Xn,) = qn(X)
+            (Yn,) = tn(Y)
+            gamma = numpy_s.empty((NT, NQ), dtype="float64")
+            g, zmin, zmax = dist(X, Y, gamma, Xn, Yn, 0, qi)
+            gs = [g.a[j, qi] for j in range(NT)]
+            d = [s_sum([(x[k][qi] - y[k][j]) * (x[k][qi] - y[k][j]) for k in range(A)]) for j in range(NT)]
+            cl = [v <= 0 for v in gs] + [zmax == core.s_max(*gs), zmin == core.s_min(*gs)]
+            for j in range(NT):
+                cl.append(s_or(d[j] != 0, gs[j] == 0))
+                for j2 in range(NT):
+                    if j != j2:
+                        cl.append(s_or(d[j] > d[j2], gs[j] >= gs[j2]))        # closer (or as close) => at least as similar
+                        cl.append(s_or(d[j] >= d[j2], gs[j] > gs[j2]))        # strictly closer => strictly more similar
+            if cfg.get("self_col"):
+                cl.append(gs[0] == 0)
+            # the argument of every sqrt is the squared Euclidean distance (polynomial identity)
+            memo = {}
+            for (zx, _r) in ctx.state.get("sqrt_terms", []):
+                ctx.stats.obligations += 1
+                if any(not _to_poly(core.lift(zx) - dj, memo, None) for dj in d):
+                    ctx.stats.discharged += 1
+                else:
+                    add("dist:not-euclidean", "the value under the square root is not the squared Euclidean distance of the two columns", dict(cfg))
+            m = ctx.prove(s_and(*cl), "similarity is monotone in Euclidean distance; a column has similarity 0 (the maximum) with itself")
+            if m is not None:
+                add("dist:not-monotone", "column similarity is not monotone in Euclidean distance / a column is not maximally similar to itself / row extrema wrong", dict(cfg))
+            return "returned"
+        core.explore(body, stats=stats, max_paths=5000)
+
+    elif kind == "bin_tail":
+        # from `i_min = ...` to the return of _integer_distances_and_histogram: integerisation, histogram, offset
+        import ast as _ast
+        import math as _math
+        tail, info = ld.slice_function("tools.tomtom", "_integer_distances_and_histogram", lambda st, text: text.startswith("i_min = "), lambda st, text: isinstance(st, _ast.Return),
+                                       ["gamma", "gamma_int", "f", "medians", "Y", "Y_counts", "nq", "n_bins", "z_min", "z_max"], None)
+        out.setdefault("functions", []).append(info)
+        nq, NT, n_bins, counts = cfg["nq"], cfg["NT"], cfg["n_bins"], cfg["counts"]
+        z_min, z_max = Fraction(*cfg["z_min"]), Fraction(*cfg["z_max"])
+
+        def body(ctx):
+            g = np.empty((NT, nq), dtype=object)
+            m0 = []
+            for i in range(nq):
+                m0.append(core.Real("m%d" % i))
+                for j in range(NT):
+                    g[j, i] = core.Real("g%d_%d" % (j, i))
+                    ctx.assume(s_and(g[j, i] - m0[i] >= z_min, g[j, i] - m0[i] <= z_max))
+            gint = numpy_s.empty((NT, nq), dtype="int8")
+            f = numpy_s.empty((nq, n_bins + 1), dtype="float64")
+            med = T.NDArray(np.array(m0, dtype=object), dtype="float64")
+            try:
+                ret = tail(T.NDArray(g.copy(), dtype="float64"), gint, f, med, T.NDArray(np.zeros((4, NT), dtype=object), dtype="float64"), T.NDArray(np.array(counts, dtype=object), dtype="int64"), nq, n_bins, z_min, z_max)
+            except IndexError as e:
+                add("bin:out-of-range", "the integerisation indexes its histogram out of range: %s" % e, dict(cfg))
+                return "raised"
+            i_min = _math.floor(z_min)
+            scale = _math.floor(n_bins / (z_max - i_min))
+            off = -i_min * scale
+            ys = sum(counts)
+            cl = [core.unwrap0(ret) == off]
+            for i in range(nq):
+                k = nq - 1 - i
+                cl.append(med.a[i] == m0[i] + i_min)
+                xs = [gint.a[j, k] + off for j in range(NT)]
+                for j in range(NT):
+                    cl.append(s_and(xs[j] >= 0, xs[j] <= n_bins))
+                    cl.append(s_or(g[j, i] < m0[i], gint.a[j, k] >= 0))            # at least as similar as the median => not below the unaligned-column score
+                    for j2 in range(NT):
+                        cl.append(s_or(g[j, i] < g[j2, i], gint.a[j, k] >= gint.a[j2, k]))
+                for b in range(n_bins + 1):
+                    cl.append(f.a[i, b] == s_sum([ite(xs[j] == b, Fraction(counts[j], ys), 0) for j in range(NT)]))
+            m = ctx.prove(s_and(*cl), "integerised similarity: in range, monotone, >= 0 at the median, histogram of the weighted target columns, offset")
+            if m is not None:
+                add("bin:wrong", "integerised scores are not a monotone in-range binning of the similarities with the weighted histogram / stored column / offset stated", dict(cfg))
+            return "returned"
+        core.explore(body, stats=stats, max_paths=20000)
+
+    elif kind == "median":
+        n, n_bins, counts = cfg["n"], cfg["n_bins"], cfg["counts"]
+
+        def body(ctx):
+            xs = [core.Real("x%d" % i) for i in range(n)]
+            lo, hi = core.Real("lo"), core.Real("hi")
+            ctx.assume(lo < hi)
+            ctx.assume(s_or(*[v == lo for v in xs]))
+            ctx.assume(s_or(*[v == hi for v in xs]))
+            for v in xs:
+                ctx.assume(s_and(v >= lo, v <= hi))
+            bins = numpy_s.empty((n_bins, 2), dtype="float64")
+            try:
+                mres = core.unwrap0(tt._binned_median(T.NDArray(np.array(xs, dtype=object), dtype="float64"), bins, lo, hi, T.NDArray(np.array(counts, dtype=object), dtype="float64")))
+            except IndexError as e:
+                add("median:out-of-range", "_binned_median indexes its bins out of range: %s" % e, dict(cfg))
+                return "raised"
+            half = Fraction(sum(counts), 2)
+            width = (hi - lo) / (n_bins - 1)
+            cl = [mres >= lo, mres <= hi]
+            near = []
+            for i in range(n):
+                le = s_sum([ite(xs[j] <= xs[i], counts[j], 0) for j in range(n)])
+                lt = s_sum([ite(xs[j] < xs[i], counts[j], 0) for j in range(n)])
+                is_med = s_or(s_and(le >= half, lt < half), s_and(le > half, lt <= half))       # lower or upper weighted median (the statement fixes neither)
+                near.append(s_and(is_med, mres - xs[i] < width, xs[i] - mres < width))
+            cl.append(s_or(*near))
+            m = ctx.prove(s_and(*cl), "binned median lies between min and max and within one bin width of a weighted median")
+            if m is not None:
+                add("median:wrong", "_binned_median is outside [min, max] or further than one bin width from the weighted median", dict(cfg))
+            return "returned"
+        core.explore(body, stats=stats, max_paths=20000)
+
+    elif kind == "rclist":
+        # the wrapper's reverse-complement statement: second half = both axes flipped, same order; doing it to the flipped
+        # targets yields the two halves exchanged
+        import ast as _ast
+        blk, info = ld.slice_function("tools.tomtom", "tomtom", lambda st, text: text.startswith("Ts = Ts + ["), lambda st, text: text.startswith("Ts = Ts + ["),
+                                      ["Ts"], ["Ts"], within=lambda nd, text: isinstance(nd, _ast.If) and text.startswith("if reverse_complement"))
+        out.setdefault("functions", []).append(info)
+        lens = cfg["lens"]
+
+        def body(ctx):
+            Ts = [T.NDArray(np.array([[core.Real("t%d_%d_%d" % (n_, k, p)) for p in range(L_)] for k in range(4)], dtype=object), dtype="float64") for n_, L_ in enumerate(lens)]
+            (both,) = blk(list(Ts))
+            n = len(lens)
+            cl = [len(both) == 2 * n]
+            ok = len(both) == 2 * n and all(both[i].a.shape == Ts[i].a.shape and both[n + i].a.shape == Ts[i].a.shape for i in range(n))
+            if ok:
+                for i in range(n):
+                    for k in range(4):
+                        for p in range(lens[i]):
+                            cl.append(both[i].a[k, p] == Ts[i].a[k, p])
+                            cl.append(both[n + i].a[k, p] == Ts[i].a[3 - k, lens[i] - 1 - p])
+                (again,) = blk([both[n + i] for i in range(n)])
+                for i in range(n):
+                    for k in range(4):
+                        for p in range(lens[i]):
+                            cl.append(again[n + i].a[k, p] == both[i].a[k, p])
+                            cl.append(again[i].a[k, p] == both[n + i].a[k, p])
+            m = ctx.prove(s_and(*cl), "reverse-complement target list") if ok else True
+            if m is not None:
+                add("rclist:wrong", "the reverse-complement target list is not [targets..., flipped targets...] in the same order", dict(cfg))
+            return "returned"
+        core.explore(body, stats=stats)
+
     elif kind == "merge":
         n = cfg["n"]
 
@@ -354,6 +561,18 @@ def worker(cfg):
             m = ctx.prove(s_and(*cl), "strand merge")
             if m is not None:
                 add("merge:wrong", "_merge_rc_results is not 1-(1-min p)^2 with the higher-scoring strand's fields", dict(cfg))
+            # reverse-complementing the targets exchanges the two halves: only the strand flag may change
+            sw = np.concatenate([res[n:], res[:n]]).copy()
+            R2 = T.NDArray(sw, dtype="float64")
+            tt._merge_rc_results(R2)
+            cl2 = []
+            for i in range(n):
+                cl2 += [R2.a[i, 0] == R.a[i, 0], R2.a[i, 1] == R.a[i, 1]]
+                differ = res[i, 1] != res[i + n, 1]
+                cl2.append(s_or(s_not(differ), s_and(R2.a[i, 2] == R.a[i, 2], R2.a[i, 3] == R.a[i, 3], R2.a[i, 4] == 1 - R.a[i, 4])))
+            m2 = ctx.prove(s_and(*cl2), "exchanging the strands changes only the strand flag")
+            if m2 is not None:
+                add("merge:not-strand-symmetric", "exchanging forward and reverse-complement results changes more than the reported strand", dict(cfg))
             return "returned"
         core.explore(body, stats=stats)
 
@@ -415,10 +634,21 @@ def configs(tier):
           dict(kind="hash", n_target_bins=5, n_score_bins=3, n_target_bins_real=100, n_score_bins_real=50),
           dict(kind="pvalues", nq=1, T_lens=[1, 2], n_scores=3, offset=0, gmax=2), dict(kind="pvalues", nq=2, T_lens=[2], n_scores=4, offset=1, gmax=1),
           dict(kind="pvalues", nq=2, T_lens=[1, 3], n_scores=4, offset=0, gmax=2), dict(kind="merge", n=2), dict(kind="pairmax", n=4)]
+    cf += [dict(kind="self", nq=2, others=[1], n_scores=6, offset=1, gmax=2), dict(kind="self", nq=2, others=[3], n_scores=6, offset=1, gmax=2, strict=True),
+           dict(kind="self", nq=3, others=[], n_scores=9, offset=1, gmax=2, strict=True),
+           dict(kind="dist", A=4, NT=2, NQ=2, i=1), dict(kind="dist", A=4, NT=3, NQ=1, i=0, self_col=True),
+           dict(kind="bin_tail", nq=1, NT=2, n_bins=4, z_min=(-13, 10), z_max=(2, 5), counts=[1, 2]), dict(kind="bin_tail", nq=2, NT=2, n_bins=10, z_min=(-13, 10), z_max=(2, 5), counts=[1, 1]),
+           dict(kind="bin_tail", nq=2, NT=3, n_bins=5, z_min=(-1, 1), z_max=(1, 4), counts=[2, 1, 1]),
+           dict(kind="median", n=3, n_bins=3, counts=[1, 1, 1]), dict(kind="median", n=3, n_bins=4, counts=[1, 2, 1]), dict(kind="median", n=4, n_bins=3, counts=[1, 1, 1, 1]),
+           dict(kind="rclist", lens=[2, 1, 3])]
     if not q:
         cf += [dict(kind="null", nq=2, n_bins=3, t_max=3, offset=2), dict(kind="null", nq=3, n_bins=2, t_max=3, offset=1), dict(kind="null", nq=3, n_bins=3, t_max=4, offset=1),
                dict(kind="pvalues", nq=3, T_lens=[2, 1], n_scores=6, offset=1, gmax=1), dict(kind="pvalues", nq=2, T_lens=[4], n_scores=4, offset=0, gmax=2),
-               dict(kind="pvalues", nq=3, T_lens=[3], n_scores=9, offset=0, gmax=3)]
+               dict(kind="pvalues", nq=3, T_lens=[3], n_scores=9, offset=0, gmax=3),
+               dict(kind="self", nq=3, others=[2], n_scores=9, offset=1, gmax=2), dict(kind="self", nq=4, others=[], n_scores=12, offset=1, gmax=1, strict=True),
+               dict(kind="dist", A=4, NT=3, NQ=2, i=0), dict(kind="dist", A=4, NT=4, NQ=1, i=0, self_col=True),
+               dict(kind="bin_tail", nq=3, NT=3, n_bins=20, z_min=(-7, 5), z_max=(3, 10), counts=[1, 3, 2]), dict(kind="bin_tail", nq=2, NT=4, n_bins=100, z_min=(-141, 100), z_max=(9, 10), counts=[1, 1, 2, 1]),
+               dict(kind="median", n=5, n_bins=4, counts=[1, 1, 2, 1, 3]), dict(kind="median", n=4, n_bins=6, counts=[2, 1, 1, 1])]
     return cf
 
 
